@@ -207,6 +207,8 @@ def check_bytes(ctx, doc, data, count=True):
     case = {'axml': data, 'model': model}
     if count:
         nt, labels = doc_features(doc)
+        if doc.meta.get('sorted_flag_set'):
+            labels = labels + ['pool:sorted-flag']
         ctx.case(nontrivial=nt, key=data, labels=labels,
                  sample={'bytes': len(data), 'utf8': doc.utf8, 'root': doc.root.name,
                          'elements': sum(1 for _ in doc.root.walk()), 'labels': labels[:12]})
